@@ -421,20 +421,32 @@ def c13_r6(ctx):
     # the exit test: the `if` whose body leaves the loop (break/return)
     exits = [x for x in ast.walk(f.node) if isinstance(x, ast.If) and
              any(isinstance(y, (ast.Break, ast.Return)) for b in x.body for y in ast.walk(b))]
+    # ... or its mirror image: the `if` whose body goes round again (ends in `continue`) while what follows it leaves the loop
+    if not exits:
+        for lp in ast.walk(f.node):
+            if not isinstance(lp, ast.While):
+                continue
+            for i_, x in enumerate(lp.body):
+                if isinstance(x, ast.If) and not x.orelse and x.body and isinstance(x.body[-1], ast.Continue) and \
+                        any(isinstance(y, (ast.Break, ast.Return)) for b in lp.body[i_ + 1:] for y in ast.walk(b)):
+                    exits.append(x)
     if not exits:
         raise AnalysisError("split_ranges: no exit test found")
     crossed = wrapped = False
     for x in exits:
         t = norm.inline_defs(x.test, f.node) if not isinstance(x.test, (ast.BoolOp, ast.Compare)) else x.test
         for c in ast.walk(t):
-            if not isinstance(c, ast.Compare) or len(c.ops) != 1:
+            if not isinstance(c, ast.Compare):
                 continue
-            ns = norm.names_in(c)
-            if nxt["start"] in ns and nxt["end"] in ns:
-                crossed = True
-            side = [norm.canon(c.left), norm.canon(c.comparators[0])]
-            if nxt["end"] in side and (p_end in side or "0" in side):
-                wrapped = True
+            # a chain a <= b <= c compares its neighbours pairwise
+            terms = [c.left] + list(c.comparators)
+            for l_, r_ in zip(terms, terms[1:]):
+                ns = norm.names_in(l_) | norm.names_in(r_)
+                if nxt["start"] in ns and nxt["end"] in ns:
+                    crossed = True
+                side = [norm.canon(l_), norm.canon(r_)]
+                if nxt["end"] in side and (p_end in side or "0" in side):
+                    wrapped = True
     # or: the sign is tested before the mask is applied
     for c in ast.walk(f.node):
         if isinstance(c, ast.Compare) and len(c.ops) == 1 and isinstance(c.left, ast.BinOp) and isinstance(c.left.op, ast.Sub) \
